@@ -459,6 +459,9 @@ type zvCase struct {
 	Class  string `json:"class"`
 	Must   bool   `json:"must_reject"`
 	Desc   string `json:"mutation"`
+	// MustKey / WeakKey: violation key stems of families that name their own keys (else derived from Class)
+	MustKey string `json:"-"`
+	WeakKey string `json:"-"`
 }
 
 func (c zvCase) fp() string {
@@ -531,16 +534,25 @@ func (z *zvCtx) judge(loc *zvLocal, cs zvCase, mg []byte, res []zvRes) {
 			problems = append(problems, r.Path+" accepted")
 			if key == "" {
 				key = "C20:" + cs.Class + ":accepted"
+				if cs.MustKey != "" {
+					key = cs.MustKey
+				}
 			}
 		case r.Meta != a.MetaJS:
 			problems = append(problems, fmt.Sprintf("%s accepted with metadata %s (original %s)", r.Path, r.Meta, a.MetaJS))
 			if key == "" {
 				key = "C20:" + cs.Class + ":accepted-different-metadata"
+				if cs.WeakKey != "" {
+					key = cs.WeakKey + ":different-metadata"
+				}
 			}
 		case r.HasState && !bytes.Equal(r.State, a.Payload):
 			problems = append(problems, fmt.Sprintf("%s accepted with state len=%d sha=%s (original len=%d sha=%s)", r.Path, r.StateLen, r.StateSha, len(a.Payload), zvSha(a.Payload)))
 			if key == "" {
 				key = "C20:" + cs.Class + ":accepted-different-state"
+				if cs.WeakKey != "" {
+					key = cs.WeakKey + ":different-state"
+				}
 			}
 		}
 	}
@@ -1194,6 +1206,7 @@ func TestZZVerifC20(t *testing.T) {
 				}
 			}})
 		}
+		jobs = append(jobs, z.sumsStructureJobs(a)...)
 		for _, s := range a.gzStructural(core.NewRand(a.Seed ^ 0x52)) {
 			s := s
 			jobs = append(jobs, zvJob{fmt.Sprintf("a%d %s", a.Idx, s.Desc), func(loc *zvLocal) {
@@ -1246,6 +1259,12 @@ func TestZZVerifC20(t *testing.T) {
 	run.FloorDistinct("flip-position", 50)
 	run.FloorDistinct("trunc-position", 9)
 	run.FloorDistinct("gz-effect", 4)
+	run.Floor("sums-structure:cases", core.N(15000, 90000))
+	run.Floor("sums-structure:member-without-checksum-cases", core.N(10000, 60000))
+	run.Floor("sums-structure:altered-member-cases", core.N(10000, 60000))
+	run.FloorDistinct("sums-structure:shape", 8)
+	run.FloorDistinct("sums-structure:alteration", 4)
+	run.FloorDistinct("sums-structure:list-length", 5)
 	if run.Finish() == 1 {
 		t.Fail()
 	}
